@@ -6,7 +6,7 @@ import ticc_util as tu
 from common import show_list
 
 LEVEL = "proof"
-LEAN_PROPS = ["FastTicc.Props.C04", "FastTicc.Props.C10", "FastTicc.Props.C01", "FastTicc.Props.C11"]
+LEAN_PROPS = ["FastTicc.Props.C04", "FastTicc.Props.C10", "FastTicc.Props.C01", "FastTicc.Props.C11", "FastTicc.Props.C04b"]
 LEAN_HELPERS = ["FastTicc.Proofs.Stack"]
 RULE = ("(a) padding/splitting helpers: every W in [1,12] x label lengths 0..60 (exhaustive) and random joint splits; "
         "(b) complete runs of both front ends on random small data: N in [1,3], W in [1,7] odd and even, K in [2,4], "
